@@ -47,4 +47,19 @@ structure ShareLayout where
 def shareLayout (t n : Nat) : ShareLayout :=
   { f := 0, k := n + 1, c := n + 1 + (t * n - n), stack := n + 1 + (t * n - n) + t * n }
 
+/-- states of belsValM / belsGenM0 (`f0` [n + 1], then the stack — allocated `O_OF_W(n + 1) + deep`,
+    since 5b8dc17), belsGenMi (`f0` [n + 1], `f` = `u` [n + 1], stack; `O_OF_W(2n + 2) + deep`) and
+    belsGenMid (`f0`, `f`, `u` [W_OF_O(32) + 1], stack; `O_OF_W(2n + 2) + 32 + O_PER_W + max(…)`) -/
+structure KeyLayout where
+  f0 : Nat
+  f : Nat
+  u : Nat
+  stack : Nat
+
+def valMLayout (n : Nat) : KeyLayout := { f0 := 0, f := 0, u := 0, stack := n + 1 }
+def genMiLayout (n : Nat) : KeyLayout := { f0 := 0, f := n + 1, u := n + 1, stack := n + 1 + n + 1 }
+/-- `hw` = W_OF_O(32) (4 for 64-bit words, 8 for 32-bit words) -/
+def genMidLayout (n hw : Nat) : KeyLayout :=
+  { f0 := 0, f := n + 1, u := n + 1 + n + 1, stack := n + 1 + n + 1 + hw + 1 }
+
 end Bee2V.C13
